@@ -327,6 +327,16 @@ def main():
             for ms in pick:
                 cases.append(mk_case(len(cases), ms, rnd, "graph"))
 
+            # a ReadAt with no lock held (SQLite reads the header page like that when it opens the file) overlapping a poll: the read
+            # looks its element up, the poll moves the index on and invalidates, the read then caches what it fetched
+            # (VfsCache.tla, UnlockedReads = TRUE)
+            for k in (1, 2):
+                d = [["Sync"], ["Grow", 2], ["Sync"], ["Open"], ["Grow", k], ["Sync"], ["PollQuiet"], ["Grow", 1], ["Sync"], ["ReadBegin", 1],
+                     ["PollQuiet"], ["ReadEnd"], ["Poll"]]
+                c = mk_case(len(cases), [], rnd, "readrace", av="none", ps=4096)
+                c["sched"], c["cfg"]["bigCache"] = d, True
+                cases.append(c)
+
         mark("schedules")
         # ---------------------------------------------------------------- R3 real code + judge
         out = run_driver(binary, wd, "cases", cases, timeout=3000)
@@ -351,6 +361,21 @@ def main():
         ex.shutdown()
         rep.cov["exhaustive"] = True
         mark("tlc_exhaustive_wait")
+        if not replay_path:
+            # the page cache in front of the index (VfsCache.tla): the code as it is, and two negative controls
+            for name, what, must_fail in [("MC_VfsCache", "cache protocol as it is, reads with and without the shared lock: CacheCoherent, ReaderViewStable", False),
+                                          ("MC_VfsCache_locked", "the same, pages read under the shared lock only", False),
+                                          ("MC_VfsCache_c18b", "NEGATIVE CONTROL: invalidate when an update is polled (also when only parked), not at unlock", True),
+                                          ("MC_VfsCache_v5", "NEGATIVE CONTROL: ReadAt caches what it fetched without re-checking the index (before the repair of V5)", True)]:
+                d = os.path.join(wd, "mc-" + name)
+                os.makedirs(d)
+                r = vlib.run_tlc("VfsCache", name + ".cfg", d, workers=4, timeout=900)
+                vlib.tlc_expect_ok(r, name)
+                rep.add_tlc(name, r, what)
+                if must_fail and not r.violated:
+                    raise vlib.MachineryError("negative control %s found no counterexample" % name)
+                if not must_fail and r.violated:
+                    rep.notes.append("model %s: %s violated (design-level; reported only if reproduced on the real code)" % (name, r.violated))
         rep.cov["traces_validated_against_impl"] = len(cases)
         rep.cov["evaluations"] = sum(1 for evs in per.values() for e in evs if e["obs"] and e["refOK"])
         noref = sum(1 for evs in per.values() for e in evs if e["obs"] and not e["refOK"])
